@@ -35,7 +35,7 @@ RULE = (
     "one run = one seeded history of 1-5 process(overwrite in {F,T}) calls with (post_check, compress, delete_original) drawn per call, "
     "on a seeded world (NP2.4 four-shank with generated channel->shank map incl. interleaved, NP2.4 one shank, NP2.1, NP1, already split; "
     "original as .bin or .cbin; 1-6 windows), each call in its own process; up to two calls carry a fault (io_error, kill, torn write, "
-    "silent corruption) on an event of the call's dry run, label class chosen uniformly; every history ends with a fault-free forced re-run. "
+    "interrupt = KeyboardInterrupt, silent corruption) on an event of the call's dry run, label class chosen uniformly; every history ends with a fault-free forced re-run. "
     "After every call: original recoverable byte for byte by the simulator's own means, deletion guard, no-op runs leave the tree identical, "
     "forced re-runs leave a complete valid set of per-shank files. distinct_nontrivial counts distinct (kind, form, options, overwrite, fault kind, "
     "fault site class, tree-shape signature before the call) tuples among calls whose fault fired or whose prior tree was not fresh."
@@ -43,7 +43,8 @@ RULE = (
 COMPONENTS = {
     "real": ["neuropixel.NP2Converter (process, _prepare_files_*, _split2shanks, _ind2save, extract_lfp, check_NP24, compress_NP24/NP21, delete_NP24, metadata writers)",
              "neuropixel.NP2Reconstructor (sampled)", "spikeglx.Reader", "mtscomp", "ibldsp.utils.WindowGenerator", "scipy.signal"],
-    "stub": ["mtscomp thread pool (inline, seeded order)", "tqdm", "mtscomp config path", "the operator (passes whichever form of the original exists)"],
+    "stub": ["mtscomp thread pool (inline, seeded order)", "tqdm", "mtscomp config path", "time module seen by the system (virtual clock)",
+             "the operator (passes whichever form of the original exists)"],
 }
 ASSUMPTIONS = [
     "process-level failure model (no fsync/power-loss semantics)",
